@@ -10,6 +10,7 @@ sys.setrecursionlimit(20000)
 import xtmir as X
 import e3props as E
 import e3props2 as E2
+import e3props3 as E3
 
 mirf, src, group, outf = sys.argv[1:5]
 tier = sys.argv[5] if len(sys.argv) > 5 else "quick"
@@ -67,6 +68,9 @@ try:
             except X.Inconclusive as e:
                 # a query that cannot be completed must not hide what the others found
                 out["status"], out["detail"] = "inconclusive", str(e)
+    elif group == "e3_k20_attribution":
+        lib = X.Mir(os.path.join(os.path.dirname(mirf), "lib.mir"))
+        E3.k20_attribution(lib, rep, src)
     elif group == "e3_main":
         E.k_main(mir, rep, 4 if tier == "thorough" else 3)
     else:
